@@ -242,6 +242,6 @@ def obligations(tier):
                           labels=('always-true', 'always-false', 'always-none')))
     for n in (1, 2) if tier == 'quick' else (1, 2, 3):
         lv = 2 if (n == 1 or (n == 2 and tier == 'thorough')) else 1
-        out.append(Obligation('check-to-range[%d]' % n, ob_checks(n, lv, 2), dict(checks=n, version_len=lv, x_len=2, alphabet='0-9ab.'), labels=('done',)))
+        out.append(Obligation('check-to-range[%d]' % n, ob_checks(n, lv, 2), dict(checks=n, version_len=lv, x_len=2, alphabet='0-9ab.'), labels=('done',), max_paths=5000000))
     out.append(Obligation('condition-with-min', ob_condmin(2, 2, 2), dict(lens=2, alphabet='0-9ab.'), labels=('true', 'false')))
     return out
